@@ -305,6 +305,13 @@ pub struct Task<T> {
     pub name: String,
 }
 
+impl<T> Task<T> {
+    /// The task has produced its result (not yet taken by `join`).
+    pub fn is_finished(&self) -> bool {
+        !self.rx.is_empty()
+    }
+}
+
 pub fn spawn<T: Send + 'static>(name: &str, f: impl FnOnce() -> T + Send + 'static) -> Task<T> {
     let (tx, rx) = crossbeam_channel::bounded(1);
     std::thread::Builder::new()
